@@ -254,8 +254,9 @@ impl Buffer {
                 self.set_size(size);
                 // the declared height is the length of the picture, not the height of a screen: commands that work on "one screen"
                 // (insert / delete lines, scrolling, cursor jumps) must not be scaled by a number in the file
+                // so the screen keeps its height: the same content is the same picture with and without the record
                 let mut screen = size;
-                screen.height = if size.height <= 0 { self.terminal_state.get_height() } else { size.height.min(1000) };
+                screen.height = self.terminal_state.get_height();
                 self.terminal_state.set_size(screen);
 
                 if !self.layers.is_empty() {
